@@ -257,6 +257,31 @@ class Legacy(object):
                 continue
             # ---- statements touching the scratch copy
             m = None
+            if isinstance(s, ast.For):
+                handled = self.input_loop(s, S, path)
+                if handled is True:
+                    continue
+                if isinstance(handled, str):
+                    return S, None, handled
+            # txtmp.vout = <list expression> / txtmp.vin = <list expression>
+            if isinstance(s, ast.Assign) and len(s.targets) == 1 and norm(s.targets[0]) in ('%s.vout' % sc, '%s.vin' % sc) \
+                    and norm(s.value) not in ('[]', 'list()'):
+                which = 'vout' if norm(s.targets[0]).endswith('.vout') else 'vin'
+                lst = self.list_expr(s.value, S, path, which)
+                if lst is not None:
+                    if which == 'vout':
+                        S['vout_list'] = lst
+                        S['outputs'] = 'list'
+                    else:
+                        S['vin_list'] = lst
+                        S['inputs'] = 'list'
+                    continue
+            # s = <bytes expression over the scratch copy>
+            if isinstance(s, ast.Assign) and len(s.targets) == 1 and isinstance(s.targets[0], ast.Name):
+                els = self.ser_expr(s.value, S)
+                if els is not None:
+                    S['vars'][s.targets[0].id] = ('ser', els)
+                    continue
             # for txin in txtmp.vin: txin.scriptSig = b''
             if isinstance(s, ast.For) and norm(s.iter) == '%s.vin' % sc and isinstance(s.target, ast.Name) and len(s.body) == 1:
                 b = s.body[0]
@@ -369,6 +394,161 @@ class Legacy(object):
             return S, None, 'unmodelled edit of the scratch transaction: `%s`' % t[:90]
         return S, result, None
 
+    def input_loop(self, s, S, path):
+        """A loop over the scratch copy's inputs that assigns fields of some of them, in any of the spellings
+        `for i in range(len(T.vin))` / `for i, e in enumerate(T.vin)` / `for e in T.vin`, with the selection written as
+        `if i != idx: ...`, `if i == idx: continue`, or not at all.  -> True (state updated) | problem text | None (not such a loop)"""
+        sc, idx = self.scratch, self.p_idx
+        repo, fi = self.repo, self.fi
+        it = norm(s.iter)
+        ivar = evar = None
+        if it == 'range(len(%s.vin))' % sc and isinstance(s.target, ast.Name):
+            ivar = s.target.id
+        elif it == 'enumerate(%s.vin)' % sc and isinstance(s.target, ast.Tuple) and len(s.target.elts) == 2 \
+                and all(isinstance(x, ast.Name) for x in s.target.elts):
+            ivar, evar = s.target.elts[0].id, s.target.elts[1].id
+        elif it == '%s.vin' % sc and isinstance(s.target, ast.Name):
+            evar = s.target.id
+        else:
+            return None
+        if s.orelse:
+            return None
+        # flatten the body into (guard, assignment) pairs
+        pairs = []
+
+        def walk(stmts, guards):
+            for k, b in enumerate(stmts):
+                if isinstance(b, ast.If) and not b.orelse and len(b.body) == 1 and isinstance(b.body[0], ast.Continue):
+                    # if <g>: continue   -> the rest runs under not g
+                    r_ = walk(stmts[k + 1:], guards + [('not', b.test)])
+                    return r_
+                if isinstance(b, ast.If):
+                    r_ = walk(b.body, guards + [('pos', b.test)])
+                    if r_ is not True:
+                        return r_
+                    if b.orelse:
+                        r_ = walk(b.orelse, guards + [('not', b.test)])
+                        if r_ is not True:
+                            return r_
+                    continue
+                if isinstance(b, ast.Assign) and len(b.targets) == 1:
+                    pairs.append((list(guards), b))
+                    continue
+                if isinstance(b, ast.Pass):
+                    continue
+                return 'unmodelled statement in a loop over the inputs: `%s`' % norm(b)[:70]
+            return True
+        r_ = walk(s.body, [])
+        if r_ is not True:
+            return r_
+        if not pairs:
+            return None
+        for guards, b in pairs:
+            tgt = norm(b.targets[0])
+            field = None
+            for f_ in ('scriptSig', 'nSequence', 'prevout'):
+                if (ivar and tgt == '%s.vin[%s].%s' % (sc, ivar, f_)) or (evar and tgt == '%s.%s' % (evar, f_)):
+                    field = f_
+            if field is None:
+                return 'a loop over the inputs assigns `%s`' % tgt
+            # which inputs?
+            sel = 'all'
+            for pol, g in guards:
+                gt = norm(g)
+                eq = gt in ('%s == %s' % (ivar, idx), '%s == %s' % (idx, ivar)) if ivar else False
+                ne = gt in ('%s != %s' % (ivar, idx), '%s != %s' % (idx, ivar), 'not %s == %s' % (ivar, idx)) if ivar else False
+                if not (eq or ne):
+                    return 'input loop guarded by `%s`' % gt
+                own = eq if pol == 'pos' else ne
+                this = 'own' if own else 'others'
+                if sel == 'all':
+                    sel = this
+                elif sel != this:
+                    sel = 'none'
+            if sel == 'none':
+                continue
+            v = repo.fold(b.value, fi.module, env=path.env)
+            if field == 'scriptSig':
+                val = 'blank' if v == b'' else ('set to %r' % (v,) if isinstance(v, bytes) else None)
+                if val is None:
+                    return 'scriptSig set to `%s` in a loop' % norm(b.value)
+            elif field == 'nSequence':
+                val = 'zero' if v == 0 and v is not UNKNOWN else ('set to %r' % (v,) if isinstance(v, int) else None)
+                if val is None:
+                    return 'nSequence set to `%s` in a loop' % norm(b.value)
+            else:
+                return 'prevout rewritten in a loop'
+            if S['inputs'] == 'list' and guards:
+                # the list was rebuilt (ANYONECANPAY): the signed input now sits at position 0, the guard still
+                # compares with its original index
+                S['own.' + field] = '%s whenever inIdx > 0 (positional index used after the input list was pruned)' % val
+                continue
+            if sel in ('all', 'own'):
+                S['own.' + field] = val
+            if sel in ('all', 'others'):
+                S['others.' + field] = val
+        return True
+
+    def list_expr(self, e, S, path, which):
+        """abstract value of a list expression assigned to the scratch copy's vin / vout -> list of descriptors or None"""
+        sc = self.scratch
+        if isinstance(e, ast.BinOp) and isinstance(e.op, ast.Add):
+            a = self.list_expr(e.left, S, path, which)
+            b = self.list_expr(e.right, S, path, which)
+            return None if a is None or b is None else a + b
+        if isinstance(e, ast.List):
+            out = []
+            for x in e.elts:
+                if isinstance(x, ast.Name) and x.id in S['tmp']:
+                    out.append(('keep', S['tmp'][x.id]))
+                elif isinstance(x, ast.Subscript) and norm(x.value) in ('%s.vout' % sc, '%s.vin' % sc):
+                    out.append(('keep', ('out' if norm(x.value).endswith('.vout') else 'in', self.index_kind(x.slice, S, path))))
+                else:
+                    blank = self.blank_output(x)
+                    if blank is None:
+                        return None
+                    out.append(('blanks', 'expr:1', blank))
+            return out
+        if isinstance(e, ast.ListComp) and len(e.generators) == 1 and not e.generators[0].ifs:
+            g = e.generators[0]
+            if isinstance(g.iter, ast.Call) and norm(g.iter.func) == 'range' and len(g.iter.args) == 1:
+                blank = self.blank_output(e.elt)
+                if blank is None:
+                    return None
+                return [('blanks', self.index_kind(g.iter.args[0], S, path), blank)]
+            return None
+        if isinstance(e, ast.BinOp) and isinstance(e.op, ast.Mult) and isinstance(e.left, ast.List) and len(e.left.elts) == 1:
+            # [CTxOut()] * n : n references to one blank output (never edited afterwards: same bytes as n blanks)
+            blank = self.blank_output(e.left.elts[0])
+            if blank is None:
+                return None
+            return [('blanks', self.index_kind(e.right, S, path), blank)]
+        return None
+
+    def ser_expr(self, e, S):
+        """abstract value of a bytes expression built from the scratch copy -> tuple of elements or None"""
+        repo, fi, sc = self.repo, self.fi, self.scratch
+        if isinstance(e, ast.BinOp) and isinstance(e.op, ast.Add):
+            a = self.ser_expr(e.left, S)
+            b = self.ser_expr(e.right, S)
+            return None if a is None or b is None else a + b
+        if norm(e) == '%s.serialize()' % sc:
+            return (('scratch', self.snapshot(S)),)
+        if isinstance(e, ast.Call) and norm(e.func) == 'struct.pack' and len(e.args) == 2:
+            fmt = repo.fold(e.args[0], fi.module)
+            return (('int', fmt_str(fmt) if fmt is not UNKNOWN else '?', norm(e.args[1])),)
+        if isinstance(e, ast.Name):
+            v = S['vars'].get(e.id)
+            if v and v[0] == 'ser':
+                return v[1]
+            return None
+        if isinstance(e, ast.Call) and isinstance(e.func, ast.Attribute) and e.func.attr == 'serialize' and isinstance(e.func.value, ast.Call) and not e.args:
+            snap = self.reconstruction(e.func.value, S)
+            if isinstance(snap, str):
+                return None
+            return (('scratch', snap),)
+        return None
+
     def reconstruction(self, call, S):
         """state of the object built by <TxClass>(scratch.vin, scratch.vout, ...) -> snapshot dict or problem text"""
         from .layout import LayoutEngine
@@ -464,6 +644,10 @@ class Legacy(object):
         if isinstance(v, ast.Tuple) and len(v.elts) == 2:
             a, b = v.elts
             av = S['vars'].get(norm(a)) if isinstance(a, ast.Name) else None
+            if av is None and isinstance(a, ast.Call) and hash_kind(self.repo, a, self.fi) == 'Hash' and len(a.args) == 1:
+                els = self.ser_expr(a.args[0], S)
+                if els is not None:
+                    av = ('hash', ('ser', els))
             if av is None:
                 fv = self.repo.fold(a, self.fi.module, env=path.env)
                 av = ('const', fv) if fv is not UNKNOWN else ('expr', norm(a))
